@@ -37,7 +37,7 @@ type Stream interface {
 	GetOffsets() (*wrapper.ConcurrentSwissMap[uint16, *models.Offset], *wrapper.ConcurrentSwissMap[uint16, bool], bool)
 	GetObservers() *wrapper.ConcurrentSwissMap[uint16, couchbase.Observer]
 	GetMetric() (*Metric, int32)
-	UnmarkDirtyOffsets()
+	UnmarkDirtyOffsets(saved map[uint16]*models.Offset)
 	GetCheckpointMetric() *CheckpointMetric
 	IsOpen() bool
 }
@@ -489,9 +489,31 @@ func (s *stream) GetCheckpointMetric() *CheckpointMetric {
 	return s.checkpoint.GetMetric()
 }
 
-func (s *stream) UnmarkDirtyOffsets() {
+// UnmarkDirtyOffsets clears the dirty mark of every vBucket whose saved offset is still
+// its current one. A vBucket acknowledged while the save was in flight keeps its mark,
+// and the save flag stays raised as long as any mark is left.
+func (s *stream) UnmarkDirtyOffsets(saved map[uint16]*models.Offset) {
 	s.anyDirtyOffset = false
-	s.dirtyOffsets = wrapper.CreateConcurrentSwissMap[uint16, bool](1024)
+
+	offsets, dirtyOffsets := s.offsets, s.dirtyOffsets
+
+	for vbID, offset := range saved {
+		dirtyOffsets.StoreIf(vbID, func(dirty bool, found bool) (bool, bool) {
+			if current, ok := offsets.Load(vbID); found && dirty && ok && current == offset {
+				return false, true
+			}
+
+			return dirty, false
+		})
+	}
+
+	dirtyOffsets.Range(func(_ uint16, dirty bool) bool {
+		if dirty {
+			s.anyDirtyOffset = true
+		}
+
+		return !dirty
+	})
 }
 
 func NewStream(client couchbase.Client,
